@@ -71,7 +71,24 @@ pub fn ops_json(ops: &[Op]) -> Value {
     Value::Array(ops.iter().map(|o| o.to_json()).collect())
 }
 pub fn ops_short(ops: &[Op]) -> String {
-    ops.iter().map(|o| o.short()).collect::<Vec<_>>().join(",")
+    // run-length compressed: "255*u64,u32"
+    let mut parts: Vec<String> = Vec::new();
+    let mut i = 0;
+    while i < ops.len() {
+        let mut j = i;
+        while j < ops.len() && ops[j] == ops[i] {
+            j += 1;
+        }
+        if j - i > 2 {
+            parts.push(format!("{}*{}", j - i, ops[i].short()));
+        } else {
+            for _ in i..j {
+                parts.push(ops[i].short());
+            }
+        }
+        i = j;
+    }
+    parts.join(",")
 }
 
 #[derive(Clone, Debug, PartialEq, Eq, Hash)]
